@@ -265,8 +265,9 @@ pub fn cmd_loop(path: &str) {
     let sys = c["mode"].as_str() == Some("sys");
     let noise = c["noise"].as_u64().unwrap_or(0) as u8;
     let with_tablet = c["tablet"].as_bool().unwrap_or(true);
+    let werr = c["werr"].as_i64().unwrap_or(5) as i32;
     let mut run = |tid: &str, k: usize, out: &mut dyn Write| -> usize {
-      if sys { run_one_sys(tid, &layout, &labels, k, &sleep, noise, with_tablet, out) } else { run_one(tid, &layout, &labels, k, &sleep, out) }
+      if sys { run_one_sys(tid, &layout, &labels, k, &sleep, noise, werr, with_tablet, out) } else { run_one(tid, &layout, &labels, k, &sleep, out) }
     };
     if c["faults"].as_str() == Some("all") {
       let n = run(&id, 0, &mut out);
@@ -303,6 +304,7 @@ struct Sys {
   kfd: i32, tfd: i32, wfd: i32,
   kbytes: VecDeque<[u8; 24]>, tbytes: VecDeque<[u8; 24]>,
   noise: u8,
+  werr: i32,             // errno of an injected write failure (EIO, or one the readers treat as 'no data' / 'gone')
   unknown_code: u16
 }
 
@@ -343,45 +345,65 @@ impl Sys {
     }
   }
 
+  // evdev_read hands over as many whole records as fit into the caller's buffer: everything already framed, then
+  // further events that are waiting in the device queue (each is one more logged read of the scripted device)
+  fn push_key_frames(&mut self, e: &Event) {
+    let (code, value) = match e { Event::Pressed(k) => (*k as u16, 1), Event::Released(k) => (*k as u16, 0) };
+    if self.noise >= 1 { self.kbytes.push_back(frame(4, 4, code as i32)); }            // MSC_SCAN
+    if self.noise >= 2 { self.kbytes.push_back(frame(1, self.unknown_code, 1)); }       // a key the tool has no name for
+    self.kbytes.push_back(frame(1, code, value));
+    if self.noise >= 1 { self.kbytes.push_back(frame(0, 0, 0)); }                       // SYN_REPORT
+    if self.noise >= 2 && value == 1 { self.kbytes.push_back(frame(1, code, 2)); self.kbytes.push_back(frame(0, 0, 0)); }  // auto-repeat
+  }
+
   fn read_k(&mut self, buf: *mut u8, count: usize) -> (isize, i32) {
     if count < 24 { return (-1, 22); }
+    let room = count / 24;
     if self.kbytes.is_empty() {
       match ScriptedDriver::next_keyboard(&mut self.d) {
         Err(_) => return (-1, E_IO),
         Ok(VNext::Busy) => return (-1, E_AGAIN),
         Ok(VNext::End) => return (-1, E_NODEV),
-        Ok(VNext::One(e)) => {
-          let (code, value) = match e { Event::Pressed(k) => (k as u16, 1), Event::Released(k) => (k as u16, 0) };
-          if self.noise >= 1 { self.kbytes.push_back(frame(4, 4, code as i32)); }            // MSC_SCAN
-          if self.noise >= 2 { self.kbytes.push_back(frame(1, self.unknown_code, 1)); }       // a key the tool has no name for
-          self.kbytes.push_back(frame(1, code, value));
-          if self.noise >= 1 { self.kbytes.push_back(frame(0, 0, 0)); }                       // SYN_REPORT
-          if self.noise >= 2 && value == 1 { self.kbytes.push_back(frame(1, code, 2)); self.kbytes.push_back(frame(0, 0, 0)); }  // auto-repeat
-        }
+        Ok(VNext::One(e)) => self.push_key_frames(&e)
       }
     }
-    let f = self.kbytes.pop_front().unwrap();
-    unsafe { std::ptr::copy_nonoverlapping(f.as_ptr(), buf, 24); }
-    (24, 0)
+    while self.kbytes.len() < room && matches!(self.d.kq.front(), Some(Some(_))) && !(self.d.fault != 0 && self.d.calls + 1 == self.d.fault) {
+      if let Ok(VNext::One(e)) = ScriptedDriver::next_keyboard(&mut self.d) { self.push_key_frames(&e); } else { break; }
+    }
+    let n = std::cmp::min(room, self.kbytes.len());
+    for i in 0..n {
+      let f = self.kbytes.pop_front().unwrap();
+      unsafe { std::ptr::copy_nonoverlapping(f.as_ptr(), buf.add(24 * i), 24); }
+    }
+    ((24 * n) as isize, 0)
+  }
+
+  fn push_tab_frames(&mut self, on: bool) {
+    if self.noise >= 1 { self.tbytes.push_back(frame(5, 0, 1)); }                       // another switch (SW_LID)
+    self.tbytes.push_back(frame(5, 1, if on { 1 } else { 0 }));
+    if self.noise >= 1 { self.tbytes.push_back(frame(0, 0, 0)); }
   }
 
   fn read_t(&mut self, buf: *mut u8, count: usize) -> (isize, i32) {
     if count < 24 { return (-1, 22); }
+    let room = count / 24;
     if self.tbytes.is_empty() {
       match ScriptedDriver::next_tablet(&mut self.d) {
         Err(_) => return (-1, E_IO),
         Ok(VNext::Busy) => return (-1, E_AGAIN),
         Ok(VNext::End) => return (-1, E_NODEV),
-        Ok(VNext::One(on)) => {
-          if self.noise >= 1 { self.tbytes.push_back(frame(5, 0, 1)); }                       // another switch (SW_LID)
-          self.tbytes.push_back(frame(5, 1, if on { 1 } else { 0 }));
-          if self.noise >= 1 { self.tbytes.push_back(frame(0, 0, 0)); }
-        }
+        Ok(VNext::One(on)) => self.push_tab_frames(on)
       }
     }
-    let f = self.tbytes.pop_front().unwrap();
-    unsafe { std::ptr::copy_nonoverlapping(f.as_ptr(), buf, 24); }
-    (24, 0)
+    while self.tbytes.len() < room && !self.d.tq.is_empty() && !(self.d.fault != 0 && self.d.calls + 1 == self.d.fault) {
+      if let Ok(VNext::One(on)) = ScriptedDriver::next_tablet(&mut self.d) { self.push_tab_frames(on); } else { break; }
+    }
+    let n = std::cmp::min(room, self.tbytes.len());
+    for i in 0..n {
+      let f = self.tbytes.pop_front().unwrap();
+      unsafe { std::ptr::copy_nonoverlapping(f.as_ptr(), buf.add(24 * i), 24); }
+    }
+    ((24 * n) as isize, 0)
   }
 
   // one write = one batch: key frames, closed by exactly one SYN_REPORT
@@ -408,7 +430,7 @@ impl Sys {
     self.d.malformed_write = !well_formed;
     match ScriptedDriver::send(&mut self.d, &evs) {
       Ok(()) => (count as isize, 0),
-      Err(_) => (-1, E_IO)
+      Err(_) => (-1, self.werr)
     }
   }
 }
@@ -460,7 +482,7 @@ fn new_fd() -> i32 {
   unsafe { libc::eventfd(0, libc::EFD_NONBLOCK | libc::EFD_CLOEXEC) }
 }
 
-fn run_one_sys(id: &str, layout: &Layout, labels: &[Lbl], fault: usize, sleep: &[String], noise: u8, with_tablet: bool, out: &mut dyn Write) -> usize {
+fn run_one_sys(id: &str, layout: &Layout, labels: &[Lbl], fault: usize, sleep: &[String], noise: u8, werr: i32, with_tablet: bool, out: &mut dyn Write) -> usize {
   let mut d = new_drv(layout, labels, fault, sleep);
   // the registration (epoll_create1 / epoll_ctl on the descriptors) goes to the kernel unscripted;
   // it is logged as the loop's first call so that the traces have one shape
@@ -469,11 +491,11 @@ fn run_one_sys(id: &str, layout: &Layout, labels: &[Lbl], fault: usize, sleep: &
   d.fault = fault;
   let (kfd, tfd, wfd) = (new_fd(), if with_tablet { new_fd() } else { -1 }, new_fd());
   let unknown_code = (1u16..768).rev().find(|c| <KeyCode as FromPrimitive>::from_u16(*c).is_none()).unwrap_or(767);
-  SYS.with(|s| *s.borrow_mut() = Some(Sys { d, kfd, tfd, wfd, kbytes: VecDeque::new(), tbytes: VecDeque::new(), noise, unknown_code }));
+  SYS.with(|s| *s.borrow_mut() = Some(Sys { d, kfd, tfd, wfd, kbytes: VecDeque::new(), tbytes: VecDeque::new(), noise, werr, unknown_code }));
   let lay = layout.clone();
   let r = std::panic::catch_unwind(std::panic::AssertUnwindSafe(|| crate::remapping_loop::verif::run_real_driver(kfd, wfd, if with_tablet { Some(tfd) } else { None }, lay)));
   let sys = SYS.with(|s| s.borrow_mut().take()).unwrap();
   unsafe { libc::close(kfd); if tfd >= 0 { libc::close(tfd); } libc::close(wfd); }
-  write_trace(id, layout, fault, sleep, &sys.d, r, json!({"mode": "sys", "slack": 999, "errtext": false, "noise": noise}), out);
+  write_trace(id, layout, fault, sleep, &sys.d, r, json!({"mode": "sys", "slack": 999, "errtext": false, "noise": noise, "werr": werr}), out);
   sys.d.calls
 }
